@@ -32,6 +32,7 @@ inductive SPred where
   | startsWith (b : Bytes) | endsWith (b : Bytes) | includes (b : Bytes)
   | lowercase | uppercase
   | regex (k : Nat)           -- `Regex` with a pattern of the harness' fixed family (see `regexFamily`)
+  | relit (mode : Nat) (lit : Bytes)   -- `Regex` with a pure-literal pattern: 0 `lit` 1 `^lit` 2 `lit$` 3 `^lit$` 4 `\Alit\z` 5 `^(?:lit)$`
   | custom (k : Nat)          -- refine / when callbacks of the harness' fixed family
   deriving Repr, DecidableEq
 
@@ -84,6 +85,12 @@ def holds : SPred → Bytes → Bool
   | .lowercase, b => b.all (fun c => !(65 ≤ c && c ≤ 90))
   | .uppercase, b => b.all (fun c => !(97 ≤ c && c ≤ 122))
   | .regex k, b => regexFamily k b
+  | .relit mode lit, b =>       -- RE2: unanchored = search; `$` without (?m) = end of text
+    match mode with
+    | 0 => isInfix lit b
+    | 1 => lit.isPrefixOf b
+    | 2 => lit.isSuffixOf b
+    | _ => b == lit
   | .custom k, b => customPred k b
 
 def apply : SOw → Bytes → Bytes
